@@ -14,7 +14,7 @@ import (
 // Palette of node types: distinguishable, cheap semantics.
 var Palette = []string{"Input", "Sum", "FixedPartition", "RunoffCoefficient", "Muskingum"}
 
-const maxGen = 3
+const maxGen = 4
 
 type nodeRef struct{ Typ, Gen, K int }
 
@@ -34,6 +34,7 @@ type graph struct {
 	Flag         string // "", "outputs-for", "no-outputs-for", "inputs-for", "no-inputs-for"
 	FlagType     int
 	WithOutput   bool
+	Reversed     bool // model types listed in /META/models in reverse palette order (types without stored inputs first)
 }
 
 func (g *graph) String() string {
@@ -53,7 +54,7 @@ func (g *graph) String() string {
 	for _, l := range g.Links {
 		ls = append(ls, fmt.Sprintf("%s(g%d,%d).out%d->%s(g%d,%d).in%d", Palette[l.Src.Typ], l.Src.Gen, l.Src.K, l.SrcVar, Palette[l.Dst.Typ], l.Dst.Gen, l.Dst.K, l.DstVar))
 	}
-	return fmt.Sprintf("G=%d T=%d %s links{%s} stored=%v flag=%s:%s output=%v", g.G, g.T, strings.Join(parts, " "), strings.Join(ls, " "), g.StoredInputs, g.Flag, Palette[g.FlagType], g.WithOutput)
+	return fmt.Sprintf("G=%d T=%d %s links{%s} stored=%v flag=%s:%s output=%v reversed-names=%v", g.G, g.T, strings.Join(parts, " "), strings.Join(ls, " "), g.StoredInputs, g.Flag, Palette[g.FlagType], g.WithOutput, g.Reversed)
 }
 
 func (g *graph) batches(t int) []int32 {
@@ -116,13 +117,21 @@ func (g *graph) sortedLinks() []glink {
 // write stores the model-graph file through the fake library's back door.
 func (g *graph) write(fn string) {
 	hdf5.FakeRemove(fn)
-	hdf5.FakePutStrings(fn, "/META/models", Palette, 32)
+	names := append([]string{}, Palette...)
+	pos := []int{0, 1, 2, 3, 4}
+	if g.Reversed {
+		for i := range names {
+			names[i] = Palette[len(Palette)-1-i]
+			pos[len(Palette)-1-i] = i
+		}
+	}
+	hdf5.FakePutStrings(fn, "/META/models", names, 32)
 	hdf5.FakePutGroup(fn, "/DIMENSIONS")
 	ls := g.sortedLinks()
 	links := make([]uint32, 0, len(ls)*10)
 	for _, l := range ls {
-		links = append(links, uint32(l.Src.Gen), uint32(l.Src.Typ), uint32(g.row(l.Src)), uint32(l.Src.K), uint32(l.SrcVar),
-			uint32(l.Dst.Gen), uint32(l.Dst.Typ), uint32(g.row(l.Dst)), uint32(l.Dst.K), uint32(l.DstVar))
+		links = append(links, uint32(l.Src.Gen), uint32(pos[l.Src.Typ]), uint32(g.row(l.Src)), uint32(l.Src.K), uint32(l.SrcVar),
+			uint32(l.Dst.Gen), uint32(pos[l.Dst.Typ]), uint32(g.row(l.Dst)), uint32(l.Dst.K), uint32(l.DstVar))
 	}
 	hdf5.FakePutDataset(fn, "/LINKS", []int{len(ls), 10}, links)
 	for t, name := range Palette {
